@@ -1,11 +1,344 @@
-/- Hand-written executable model (tie B): Fourier.  Core Lean only — no Mathlib import in this file. -/
+/- Hand-written executable model (tie B): Fourier.  Core Lean only — no Mathlib import in this file.
+
+   Models `gstools.field.generator.Fourier` (update / _set_modes / _fill_to_dim / reset_seed / __call__),
+   `np.arange` as numpy implements it for doubles, `generate_grid` (meshgrid 'ij', C order) and the part of
+   `CovModel.isometrize` that `SRF.__call__` applies before it calls the generator.
+   The same text runs on `Float` in the driver and is reasoned about on `ℝ` in `GSV/Props/C17.lean`. -/
 import GSV.Proto
+import GSV.Gen.Summator
 open Lean GSV GSV.Proto GSV.Transc
 namespace GSV.Model.Fourier
+
+section defs
+variable {α : Type} [Arith α] [Transc α] [DecidableLT α] [DecidableLE α]
+
+/-! ### the mode grid (`Fourier.update`, `Fourier._set_modes`) -/
+
+/-- `np.insert(model.anis.copy(), 0, 1.0)[d]` -/
+def anisP (anis : Nat → α) (d : Nat) : α := if d = 0 then ((1:Nat):α) else anis (d - 1)
+
+/-- `self._delta_k[d] = 2.0 * np.pi / self._period[d] * anis[d]` -/
+def deltaK (period anis : Nat → α) (d : Nat) : α :=
+  ((2:Nat):α) * Transc.pi / period d * anisP anis d
+
+/-- number of modes `_set_modes` produces on axis `d` when asked for `m`:
+    `len(np.arange(-(int(m) // 2), int(m) // 2))` -/
+def modeLen (m : Nat) : Nat := 2 * (m / 2)
+
+/-- the `n`-th 1-D mode on an axis with requested count `m` and spacing `dk`:
+    `(np.arange(-(int(m) // 2), int(m) // 2) * self._delta_k[d])[n]` (integer mode number, converted, times spacing) -/
+def mode1d (m : Nat) (dk : α) (n : Nat) : α := ((((n:Int) - ((m / 2 : Nat) : Int) : Int)) : α) * dk
+
+/-- C-order stride of axis `d` in a grid of shape `lens[0..dim)` -/
+def stride (lens : Nat → Nat) (dim d : Nat) : Nat := forRange (d + 1) dim 1 fun e acc => acc * lens e
+
+/-- multi-index component `d` of the flat index `j` (`np.meshgrid(..., indexing="ij")` flattened in C order) -/
+def gridIdx (lens : Nat → Nat) (dim d j : Nat) : Nat := (j / stride lens dim d) % lens d
+
+/-- `np.prod(self._mode_no)` -/
+def gridN (lens : Nat → Nat) (dim : Nat) : Nat := forRange 0 dim 1 fun e acc => acc * lens e
+
+/-- `generate_grid(modes)[d, j]` for 1-D arrays `m1 d` of lengths `lens d` -/
+def gridOf (m1 : Nat → Nat → α) (lens : Nat → Nat) (dim d j : Nat) : α := m1 d (gridIdx lens dim d j)
+
+/-- `self._modes[d, j]` right after `_set_modes(mreq, dim)` with spacings `dk` -/
+def modesGrid (mreq : Nat → Nat) (dk : Nat → α) (dim d j : Nat) : α :=
+  gridOf (fun d n => mode1d (mreq d) (dk d) n) (fun d => modeLen (mreq d)) dim d j
+
+/-! ### spectrum factor (`reset_seed`) -/
+
+/-- `np.linalg.norm(self._modes, axis=0)[j]` -/
+def kNorm (modes : Nat → Nat → α) (dim j : Nat) : α :=
+  sqrt (forRange 0 dim ((0:Nat):α) fun d acc => acc + modes d j * modes d j)
+
+/-- `np.prod(self._delta_k)` -/
+def prodDk (dk : Nat → α) (dim : Nat) : α := forRange 0 dim ((1:Nat):α) fun d acc => acc * dk d
+
+/-- `np.sqrt(spectrum_values * np.prod(self._delta_k))[j]` -/
+def specFactorOf (sv : Nat → α) (dk : Nat → α) (dim j : Nat) : α := sqrt (sv j * prodDk dk dim)
+
+/-- `self._spectrum_factor[j]` for a model with spectrum `spec` -/
+def specFactor (spec : α → α) (modes : Nat → Nat → α) (dk : Nat → α) (dim j : Nat) : α :=
+  specFactorOf (fun j => spec (kNorm modes dim j)) dk dim j
+
+/-! ### `_fill_to_dim` -/
+
+/-- `_fill_to_dim(values, dim)[d]` for a non-empty `values`: cut to `dim`, pad with the last entry -/
+def fillToDim {β : Type} [Inhabited β] (v : Array β) (d : Nat) : β := v[min d (v.size - 1)]!
+
+/-! ### what `SRF.__call__` does before the generator sees the points -/
+
+/-- `matrix_isometrize = matrix_isotropify · matrix_derotate`: row `d` of the derotation `Q` divided by `anis'[d]` -/
+def isoMat (Q : Nat → Nat → α) (anis : Nat → α) (d e : Nat) : α := ((1:Nat):α) / anisP anis d * Q d e
+
+/-- `model.isometrize(pos)[d, i] = Σ_e M[d,e] · pos[e,i]` -/
+def isometrize (Q : Nat → Nat → α) (anis : Nat → α) (dim : Nat) (pos : Nat → Nat → α) (d i : Nat) : α :=
+  forRange 0 dim ((0:Nat):α) fun e acc => acc + isoMat Q anis d e * pos e i
+
+/-- `Fourier.__call__(pos, add_nugget=False)`: the generated kernel on the generator's own arrays -/
+def genField (sched : Sched) (sf : Nat → α) (modes : Nat → Nat → α) (z1 z2 : Nat → α) (N : Nat)
+    (pos : Nat → Nat → α) (dim X : Nat) : Nat → α :=
+  Summator.summate_fourier sched sf N modes dim N z1 N z2 N pos dim X
+
+/-- `SRF(model, generator="Fourier")(pos)` without mean/nugget: isometrize, then the generator -/
+def srfField (sched : Sched) (Q : Nat → Nat → α) (anis : Nat → α) (sf : Nat → α) (modes : Nat → Nat → α)
+    (z1 z2 : Nat → α) (N : Nat) (pos : Nat → Nat → α) (dim X : Nat) : Nat → α :=
+  genField sched sf modes z1 z2 N (isometrize Q anis dim pos) dim X
+
+/-! ### `Fourier.update` as a state machine -/
+
+/-- what the generator uses of a `CovModel`: its dimension, the anisotropy ratios, and a token `tag`
+    standing for everything else that enters the comparison `!=` and the spectrum -/
+structure Mdl (α : Type) where
+  dim : Nat
+  anis : Nat → α
+  tag : Nat
+
+/-- private attributes of a `Fourier` object that the grid depends on, plus two bookkeeping fields -/
+structure St (α : Type) where
+  hasModel : Bool
+  model : Mdl α
+  hasPeriod : Bool
+  period : Nat → α
+  /-- `self._mode_no`: the lengths `_set_modes` measured (NOT the requested counts) -/
+  modeNo : Nat → Nat
+  deltaK : Nat → α
+  /-- the 1-D `np.arange` arrays; `self._modes = generate_grid` of them with shape `modeNo` -/
+  modes1d : Nat → Nat → α
+  seed : Nat
+  /-- `len(self._z_1)` -/
+  zLen : Nat
+  /-- bookkeeping: `reset_seed` ran after the last change of the grid / `_delta_k` -/
+  fresh : Bool
+  /-- bookkeeping: number of `reset_seed` calls -/
+  resets : Nat
+
+/-- arguments of `update(model=None, seed=np.nan, period=None, mode_no=None)`;
+    `seed = none` is `np.nan` (keep); a random seed (`None`) is not modelled -/
+structure Upd (α : Type) where
+  model : Option (Mdl α)
+  seed : Option Nat
+  period : Option (Array α)
+  modeNo : Option (Array Nat)
+
+inductive Out where
+  | ok
+  | oddModeNo      -- ValueError("Fourier: Odd mode_no not supported.")
+  | neither        -- ValueError("... neither 'model' nor 'seed' given!")
+  | unsupported    -- outside the model (dimension change, no model at all)
+deriving DecidableEq, Repr
+
+def blank [Inhabited α] : St α :=
+  { hasModel := false, model := ⟨0, fun _ => default, 0⟩, hasPeriod := false, period := fun _ => default,
+    modeNo := fun _ => 0, deltaK := fun _ => default, modes1d := fun _ _ => default, seed := 0, zLen := 0,
+    fresh := false, resets := 0 }
+
+/-- `_set_modes(mode_no, dim)` -/
+def setModes (st : St α) (mreq : Nat → Nat) : St α :=
+  { st with
+    modes1d := fun d n => mode1d (mreq d) (st.deltaK d) n
+    modeNo := fun d => modeLen (mreq d)
+    fresh := false }
+
+/-- `reset_seed(seed)` -/
+def resetSeed (st : St α) (seed : Option Nat) : St α :=
+  { st with seed := seed.getD st.seed, zLen := gridN st.modeNo st.model.dim, fresh := true, resets := st.resets + 1 }
+
+/-- the `seed` property setter: `if new_seed != self._seed: self.reset_seed(new_seed)` -/
+def setSeed (st : St α) (s : Nat) : St α := if s ≠ st.seed then resetSeed st (some s) else st
+
+/-- `Fourier.update`; `eqv a b` is the code's `a == b` on models (`compare`, built on `np.isclose`) -/
+def update [Inhabited α] (eqv : Mdl α → Mdl α → Bool) (st : St α) (u : Upd α) : St α × Out :=
+  if !st.hasModel && u.model.isNone then (st, Out.unsupported) else
+  let tmp : Mdl α := u.model.getD st.model
+  if st.hasModel && tmp.dim ≠ st.model.dim then (st, Out.unsupported) else
+  if !st.hasPeriod && (u.period.isNone || u.modeNo.isNone) then (st, Out.unsupported) else
+  -- mode_no is validated first; an odd count raises before anything is written
+  let odd : Bool := match u.modeNo with
+    | some mn => (List.range tmp.dim).any fun d => (fillToDim mn d) % 2 != 0
+    | none => false
+  if odd then (st, Out.oddModeNo) else
+  let newModel : Bool := match u.model with
+    | some m => !(st.hasModel && eqv st.model m)
+    | none => false
+  -- the mode grid depends on the period and the model's anisotropy
+  let st : St α :=
+    if u.period.isSome || (newModel && st.hasPeriod) then
+      let st : St α := match u.period with
+        | some p => { st with period := fillToDim p, hasPeriod := true }
+        | none => st
+      let st : St α := { st with deltaK := fun d => deltaK st.period tmp.anis d, fresh := false }
+      if u.modeNo.isNone then setModes st st.modeNo else st
+    else st
+  let st : St α := match u.modeNo with
+    | some mn => setModes st (fillToDim mn)
+    | none => st
+  match u.model with
+  | some m =>
+    -- also update when the mode mesh was modified
+    if newModel || u.modeNo.isSome || u.period.isSome then
+      (resetSeed { st with model := m, hasModel := true } u.seed, Out.ok)
+    else match u.seed with
+      | some s => (setSeed st s, Out.ok)
+      | none => (st, Out.ok)
+  | none =>
+    if u.modeNo.isSome || u.period.isSome then (resetSeed st u.seed, Out.ok)
+    else match u.seed with
+      | some s => (setSeed st s, Out.ok)
+      | none => (st, Out.neither)
+
+/-- `Fourier(model, period, mode_no, seed)` -/
+def init [Inhabited α] (eqv : Mdl α → Mdl α → Bool) (m : Mdl α) (seed : Nat) (period : Array α) (modeNo : Array Nat) :
+    St α × Out :=
+  update eqv blank ⟨some m, some seed, some period, some modeNo⟩
+
+/-- run a history of `update` calls; a call that raises leaves whatever it had already written -/
+def run [Inhabited α] (eqv : Mdl α → Mdl α → Bool) (st : St α) : List (Upd α) → St α
+  | [] => st
+  | u :: us => run eqv (update eqv st u).1 us
+
+/-- `self._modes[d, j]` of a state -/
+def St.modes (st : St α) (d j : Nat) : α := gridOf st.modes1d st.modeNo st.model.dim d j
+
+/-- `np.isclose(a, b)` with the default tolerances, as `compare` uses it (`a` = stored model, `b` = given one) -/
+def isclose (a b : α) : Bool := decide (fabs (a - b) ≤ (1e-8:α) + (1e-5:α) * fabs b)
+
+/-- the code's model comparison restricted to what `Mdl` carries: same `tag`, same `dim`, anisotropies `isclose` -/
+def mdlClose (a b : Mdl α) : Bool :=
+  a.dim == b.dim && a.tag == b.tag && (List.range (a.dim - 1)).all fun d => isclose (a.anis d) (b.anis d)
+
+end defs
+
+/-! ### driver operations -/
+
+private def optField (j : Json) (k : String) : Option Json :=
+  match j.getObjVal? k with
+  | .ok Json.null => none
+  | .ok v => some v
+  | .error _ => none
+
+private def jFloats (v : Json) : Except String (Array Float) := do
+  let a ← v.getArr?
+  a.mapM jsonToFloat
+
+private def jNats (v : Json) : Except String (Array Nat) := do
+  let a ← v.getArr?
+  a.mapM (·.getNat?)
+
+private def parseMdl (dim : Nat) (v : Json) : Except String (Mdl Float) := do
+  let an ← getFloats v "anis"
+  let tag ← getNat v "tag"
+  let d := match optField v "dim" with
+    | some dj => (dj.getNat?).toOption.getD dim
+    | none => dim
+  return ⟨d, ofList an, tag⟩
+
+private def parseUpd (dim : Nat) (v : Json) : Except String (Upd Float) := do
+  let model ← match optField v "model" with
+    | some m => (parseMdl dim m).map some
+    | none => pure none
+  let seed ← match optField v "seed" with
+    | some s => s.getNat?.map some
+    | none => pure none
+  let period ← match optField v "period" with
+    | some p => (jFloats p).map some
+    | none => pure none
+  let modeNo ← match optField v "mode_no" with
+    | some p => (jNats p).map some
+    | none => pure none
+  return ⟨model, seed, period, modeNo⟩
+
+private def outStr : Out → String
+  | .ok => "ok"
+  | .oddModeNo => "ValueError:odd"
+  | .neither => "ValueError:neither"
+  | .unsupported => "unsupported"
+
+private def stJson (st : St Float) (o : Out) : Json :=
+  let dim := st.model.dim
+  Json.mkObj [
+    ("out", Json.str (outStr o)),
+    ("period", fl (tab st.period dim)),
+    ("mode_no", Json.arr ((tab st.modeNo dim).map fun (n : Nat) => Json.num (JsonNumber.fromNat n)).toArray),
+    ("delta_k", fl (tab st.deltaK dim)),
+    ("modes1d", Json.arr ((List.range dim).map fun d => fl (tab (st.modes1d d) (st.modeNo d))).toArray),
+    ("anis", fl (tab st.model.anis (dim - 1))),
+    ("tag", Json.num (JsonNumber.fromNat st.model.tag)),
+    ("seed", Json.num (JsonNumber.fromNat st.seed)),
+    ("zlen", Json.num (JsonNumber.fromNat st.zLen)),
+    ("fresh", Json.bool st.fresh),
+    ("resets", Json.num (JsonNumber.fromNat st.resets))]
 
 /-- line-protocol operations of this model; `none` = not one of mine -/
 def ops (op : String) (j : Json) : Option (Except String Json) :=
   match op with
+  | "fourier_grid" => some (do
+      -- delta_k, measured lengths and the flattened mode grid for (period, anis, mode_no)
+      let dim ← getNat j "dim"
+      let period ← getFloats j "period"; let anis ← getFloats j "anis"; let mreq ← getNats j "mode_no"
+      let dk : Nat → Float := deltaK (ofList period) (ofList anis)
+      let lens : Nat → Nat := fun d => modeLen (ofList mreq d)
+      let n := gridN lens dim
+      let grid := modesGrid (ofList mreq) dk dim
+      return Json.mkObj [
+        ("delta_k", fl (tab dk dim)),
+        ("lens", Json.arr ((tab lens dim).map fun (n : Nat) => Json.num (JsonNumber.fromNat n)).toArray),
+        ("N", Json.num (JsonNumber.fromNat n)),
+        ("modes", fl2 (tab2 grid dim n))])
+  | "fourier_sf" => some (do
+      -- k_norm and spectrum factor from a mode grid, delta_k and the spectrum values
+      let dim ← getNat j "dim"; let n ← getNat j "N"
+      let modes ← getFloats j "modes"; let dk ← getFloats j "delta_k"; let sv ← getFloats j "spec"
+      let md := ofList2 modes n
+      return Json.mkObj [
+        ("k_norm", fl (tab (kNorm md dim) n)),
+        ("sf", fl (tab (specFactorOf (ofList sv) (ofList dk) dim) n))])
+  | "fourier_fill" => some (do
+      let dim ← getNat j "dim"; let v ← getFloats j "values"
+      if v.size == 0 then throw "ValueError" else
+      return fl (tab (fillToDim v) dim))
+  | "fourier_iso" => some (do
+      let dim ← getNat j "dim"; let x ← getNat j "X"
+      let q ← getFloats j "Q"; let anis ← getFloats j "anis"; let pos ← getFloats j "pos"
+      return fl2 (tab2 (isometrize (ofList2 q dim) (ofList anis) dim (ofList2 pos x)) dim x))
+  | "fourier_gen" => some (do
+      -- whole generator: grid from (period, anis, mode_no), spectrum factor from spectrum values, kernel
+      let dim ← getNat j "dim"; let x ← getNat j "X"
+      let period ← getFloats j "period"; let anis ← getFloats j "anis"; let mreq ← getNats j "mode_no"
+      let sv ← getFloats j "spec"; let z1 ← getFloats j "z1"; let z2 ← getFloats j "z2"; let pos ← getFloats j "pos"
+      let dk : Nat → Float := deltaK (ofList period) (ofList anis)
+      let lens : Nat → Nat := fun d => modeLen (ofList mreq d)
+      let n := gridN lens dim
+      -- tabulate the grid once (the closure would otherwise recompute it per access)
+      let gridArr : Array Float := ((tab2 (modesGrid (ofList mreq) dk dim) dim n).flatten).toArray
+      let grid := ofList2 gridArr n
+      let sfArr : Array Float := (tab (specFactorOf (ofList sv) dk dim) n).toArray
+      let p := ofList2 pos x
+      let pp : Nat → Nat → Float := match optField j "Q" with
+        | some qj => match jFloats qj with
+          | .ok q => isometrize (ofList2 q dim) (ofList anis) dim p
+          | .error _ => p
+        | none => p
+      let ppArr : Array Float := ((tab2 pp dim x).flatten).toArray
+      let r := genField id (ofList sfArr) grid (ofList z1) (ofList z2) n (ofList2 ppArr x) dim x
+      return fl (tab r x))
+  | "fourier_hist" => some (do
+      -- a history of update calls starting with the constructor; state after every call
+      let dim ← getNat j "dim"
+      let opsJ ← (← j.getObjVal? "ops").getArr?
+      let exact := (getBool j "exact_eq").toOption.getD false
+      let eqv : Mdl Float → Mdl Float → Bool :=
+        if exact then fun a b => a.dim == b.dim && a.tag == b.tag &&
+          (List.range (a.dim - 1)).all fun d => a.anis d == b.anis d
+        else mdlClose
+      let mut st : St Float := blank
+      let mut outs : Array Json := #[]
+      for oj in opsJ do
+        let u ← parseUpd dim oj
+        let (st', o) := update eqv st u
+        st := st'
+        outs := outs.push (stJson st o)
+      return Json.arr outs)
   | _ => none
 
 end GSV.Model.Fourier
